@@ -274,6 +274,35 @@ def gen_health_paths(k):
     return b.finish()
 
 
+def gen_slow_log(k):
+    """The log sink is slow and the level is Debug: every log call of the proxy takes a moment during which other goroutines
+    run. A redeploy one of whose targets never answers must still fail and leave the old targets serving, however the log
+    calls of the waiting goroutines interleave with the deploy; one whose targets all answer (late) must still succeed."""
+    b = Builder(random.Random(9100 + k))
+    b.meta["shape"] = {"mix": "slow_log", "k": k}
+    host, name = b"a.example.com", b"web"
+    b.deploy(name, host, [["ok"]], 5 * SEC, 500 * MS, async_=False)
+    b.request(host, "old")
+    b.sleep(0)
+    n = 1 + k % 3
+    scripts = [["status:503", "ok"] for _ in range(n)]
+    bad = k % 2 == 0
+    if bad:
+        scripts[k % n] = [["refused"], ["status:500"], ["hang"]][k % 3]
+    dt = [2 * SEC, 2500 * MS][k % 2]
+    b.deploy(name, host, scripts, dt, 500 * MS)
+    for mk in [1, 1 * SEC, 900 * MS, 700 * MS, 300 * MS]:
+        b.sleep(mk)
+        b.request(host, "during")
+    b.sleep(1 * SEC)
+    for _ in range(3):
+        b.request(host, "after")
+    sc, meta = b.finish()
+    sc["slow_log_ns"] = [1, 1000, 1000000][k % 3]
+    meta["strict"] = False        # the time the log calls take is added to the waits: only the weak deadline rule applies
+    return sc, meta
+
+
 def gen_rollout_redeploy(rnd):
     """A SECOND rollout deploy while a split is in force and rollout-group requests keep arriving: until all of its targets
     have answered a probe the rollout group must stay on the rollout targets it had (and for ever, if the command fails)."""
@@ -464,6 +493,7 @@ def run(tier, seed):
         scen_meta += [gen_same_names(random.Random(seed * 131 + k)) for k in range(6 if tier == "quick" else 60)]
         scen_meta += [gen_rollout_redeploy(random.Random(seed * 137 + k)) for k in range(6 if tier == "quick" else 60)]
         scen_meta += [gen_health_paths(k) for k in range(6)]
+        scen_meta += [gen_slow_log(k) for k in range(6 if tier == "quick" else 24)]
         scenarios = [s for s, _ in scen_meta]
         metas = [m for _, m in scen_meta]
         rand = m5lb.random_scenarios(rnd, n_random, PROFILES, 8, 25)
